@@ -2,6 +2,7 @@
 # Model: Writers.v (chain) + Engine.v; theorems: Props/C02.v (chain_correct, stable sort facts, early stop).
 import itertools
 import importlib
+import json
 import lib
 import qgen
 import enginecheck as ec
@@ -68,6 +69,78 @@ def gen_case(ctx, g):
     return ec.make_case(r, qa, A, B, also_table=True)
 
 
+# Typed cells (list / dataframe / sqlite sources hold numbers, None and strings side by side, a CSV file never does): values that are
+# DIFFERENT output records although str() renders them alike (7 vs '7', None vs 'None', True vs 'True'), and values that are the SAME
+# record although they are spelled differently (1 == True, 0 == False - Python equality, Value.atom_eqb in the model).  Seeded
+# change C02-13 compared records by the text of their fields.
+TYPED_FAMILIES = [[7, '7'], [None, 'None', ''], [0, '0', False], [1, '1', True, 'True'], [-1, '-1', -2], [12, '12', '1', 2]]
+
+
+def gen_typed(ctx, g, with_bools=True):
+    """DISTINCT / DISTINCT COUNT / TOP / ORDER BY over records whose fields differ in TYPE only"""
+    r = ctx.rng
+    pool = [v for fam in r.sample(TYPED_FAMILIES, r.randint(1, 2)) for v in fam]
+    if not with_bools:
+        pool = [v for v in pool if not isinstance(v, bool)]      # (sqlite stores True as the integer 1: no bools when the case also runs from sqlite)
+    ntyped = r.randint(1, 2)
+    pay = ['x', 'y'] if r.random() < 0.7 else ['x']
+    A = [[r.choice(pool) for _ in range(ntyped)] + [r.choice(pay)] for _ in range(r.randint(0, 8))]
+    ncols = ntyped + 1
+    items = []
+    for _ in range(r.randint(1, 2)):
+        x = r.random()
+        if x < 0.55:
+            items.append(('expr', ('fld', 'a', r.randint(0, ntyped - 1))))
+        elif x < 0.8:
+            items.append(('star',))
+        elif x < 0.9 and not any(i[0] == 'unnest' for i in items):
+            items.append(('unnest', ('list', [('fld', 'a', 0), ('lit', r.choice(pool)), ('fld', 'a', 0)]), 'UNNEST'))
+        else:
+            items.append(('expr', ('fld', 'a', ncols - 1)))
+    order = None
+    if r.random() < 0.5:
+        # keys of ONE kind (mixed kinds are a TypeError of sorted()): the payload column, its length, the record number
+        order = ([r.choice([('fld', 'a', ncols - 1), ('len', ('fld', 'a', ncols - 1)), ('NR',)])], r.random() < 0.5)
+    where = ('ne', ('fld', 'a', 0), ('lit', r.choice(pool))) if r.random() < 0.25 else None
+    qa = {'kind': ('select', items), 'where': where, 'join': None, 'order': order, 'distinct': r.choice([1, 1, 2, 2, 0]),
+          'top': r.randint(0, len(A) + 1) if r.random() < 0.4 else None, 'top_spelling': r.choice(['top', 'limit']), 'asc_explicit': r.random() < 0.3}
+    c = ec.make_case(r, qa, A, None, also_table=True, tags=['typed'])
+    if not with_bools:
+        c['sources'] = ['pandas', 'sqlite']
+    return c
+
+
+def src_rel(c, e, g):
+    """the same query over the same typed table held by a dataframe / a sqlite table: every write and the error as the model has them"""
+    if e is None:
+        return True
+    if not isinstance(g, dict):
+        return False
+    for src in c['sources']:
+        o = g.get(src)
+        if not isinstance(o, dict) or 'events' not in o:
+            return False
+        if ec.strip_header(o['events']) != ec.strip_header(e['events']) or o['error'] != e['error']:
+            return False
+    return True
+
+
+def src_describe(c, e, g):
+    return 'query %r over the typed table %s held by %s: model=%s implementation=%s' % (c['q'], json.dumps(c['A']), ' / '.join(c['sources']), json.dumps(e)[:300], json.dumps(g)[:500])
+
+
+def typed_sources_leg(ctx, cases, exp):
+    sel = [(dict(c, part='typed_sources'), e) for c, e in zip(cases, exp) if c.get('sources')]
+    if not sel:
+        return
+    scases, sexp = [x[0] for x in sel], [x[1] for x in sel]
+    got = lib.run_impl_py('c02src', scases, extra_env={'VERIF_SCRATCH': lib.BUILD})
+    ctx.compare(scases, sexp, got, THEOREM, rel=src_rel, describe=src_describe,
+                corrupt=lambda e: {'events': [['F'], ['F']], 'pulls': -1, 'error': ['CANARY', 0, None]} if e is None else dict(e, error=['CANARY', 0, None]))
+    ctx.count(len(scases) * 2)
+    ctx.stat('typed_cases_from_dataframe_and_sqlite', len(scases))
+
+
 def gen_endless(ctx, g):
     """bounded query without buffering over an endless input: must terminate, pulling no more than the model"""
     r = ctx.rng
@@ -127,11 +200,18 @@ def run(ctx):
     cases = [gen_case(ctx, g) for _ in range(n)]
     cases += [gen_endless(ctx, g) for _ in range(300 if ctx.tier == 'quick' else 5000)]
     cases += exhaustive_cases(ctx, 3000 if ctx.tier == 'quick' else None)
+    nt = 600 if ctx.tier == 'quick' else 60000
+    cases += [gen_typed(ctx, g) for _ in range(nt)] + [gen_typed(ctx, g, with_bools=False) for _ in range(nt // 3)]
     ctx.rule = ('queries over {ORDER BY asc/desc, 1-2 homogeneous int or string keys} x {none, DISTINCT, DISTINCT COUNT} x {none, TOP n, LIMIT n, n in 0..|T|+1} '
                 'x {WHERE, JOIN, UNNEST} on tables with many duplicate keys/rows; endless-input streams for the early-stop clause (implementation must terminate with '
-                'pulls <= model pulls); bounded enumeration: all tables <= 3 rows over keys {1,2} x payload {x,y} x 120 clause combinations (%s); '
+                'pulls <= model pulls); typed tables (numbers, None, booleans and strings side by side: records that differ in the TYPE of a field only, 1 == True) '
+                'through rbql.query / query_table, a third of them also from a dataframe (DataframeIterator) and a sqlite table (SqliteRecordIterator); bounded enumeration: all tables <= 3 rows over keys {1,2} x payload {x,y} x 120 clause combinations (%s); '
                 'non-trivial = distinct case with at least one output row or an error') % ('sampled' if ctx.tier == 'quick' else 'complete')
     exp, got = ec.evaluate(ctx, cases, THEOREM, rel=rel)
+    typed_sources_leg(ctx, cases, exp)
+    for c in cases:
+        if 'typed' in c.get('tags', ()):
+            ctx.stat('typed_cells_distinct_%d' % c['qa']['distinct'])
     k = 0
     for c, e, g_ in zip(cases, exp, got):
         if 'endless' in c.get('tags', ()) and e and isinstance(g_, dict):
@@ -150,6 +230,11 @@ def run(ctx):
 
 
 def replay(ctx, case):
+    if case.get('part') == 'typed_sources':
+        e = ec.canon_model(lib.run_model(300, [ec.model_arg(case)], shards=1)[0])
+        g = lib.run_impl_py('c02src', [case], shards=1, extra_env={'VERIF_SCRATCH': lib.BUILD})[0]
+        ctx.count()
+        return ctx.compare([case], [e], [g], THEOREM, rel=src_rel, describe=src_describe)
     if case.get('part') == 'nullkeys':
         return importlib.import_module('props.nullkeys').replay(ctx, case, THEOREM, 'C02')
     if case.get('part') == 'jssort':
